@@ -53,6 +53,16 @@ fn run_script(is256: bool, ops: &str, input: &[u8]) -> Option<String> {
 
 pub fn fips_fn(f: &str, a: &[&str]) -> Option<String> {
     match (f, a.len()) {
+        // the two public byte-order helpers (little endian); buffers longer than 8 bytes: only the first 8 are read / written
+        ("load64", 1) => { let b = unhex(a[0])?; ok(fips202::load64(&b).to_string()) }
+        ("store64", 2) => {
+            let u: u64 = a[0].parse().ok()?; let extra: usize = a[1].parse().ok()?;
+            if extra > 64 { return None; }
+            let mut o = vec![next_fill(); 8 + extra]; let fill = o[0];
+            fips202::store64(&mut o, u);
+            if o[8..].iter().any(|&x| x != fill) { return Some("ok wrote-beyond-8-bytes".to_string()); }
+            ok(hex(&o[..8]))
+        }
         ("shake256_script", 2) => { let inp = unhex(a[1])?; run_script(true, a[0], &inp) }
         ("shake128_script", 2) => { let inp = unhex(a[1])?; run_script(false, a[0], &inp) }
         ("shake256", 2) => {
